@@ -211,7 +211,7 @@ impl Property for C03 {
         }
         // packets beyond 64 KiB arriving in many reads, the last of which carries -1, 0, 1, 2 or 3
         // bytes of the packet that follows
-        let kibs2: Vec<u16> = if tier == Tier::Thorough { vec![65, 70, 98, 300] } else { vec![70, 98] };
+        let kibs2: Vec<u16> = if tier == Tier::Thorough { vec![65, 70, 98, 300, 1100, 3100] } else { vec![70, 98, 1100] };
         for kib in kibs2 {
             for d in [-1i8, 0, 1, 2, 3] {
                 for every in [30_000u32, 4_099, 65_536] {
@@ -228,7 +228,9 @@ impl Property for C03 {
                             Inbound::Ack { sel: 0, deco: short },
                         ],
                         plan: ChunkPlan::Mixed { deltas: vec![d], every },
-                        settle_between: d % 2 == 0,
+                        // a quiet moment after every read (the reader goes Pending with the spill
+                        // bytes buffered), or all reads back to back
+                        settle_between: every != 30_000,
                         read_cap: 0,
                         read_yield: false,
                         eof_after: true,
